@@ -90,7 +90,7 @@ pub fn run(ctx: &Ctx) -> &'static str {
     ctx.explore(
         "states",
         "link-state histories over 1..4 real connections (phases, receive age vs timeout edges, in-flight around the thresholds, proof age, latch/pull history, weak/loss-degraded, CC target vs bitrate, NAK/quality history, previous index) with every config setting; every select of the history is checked: usable link exists => Some; non-trivial = a select where a usable link exists and every usable link has a gate engaged (latched/pulled/weak/loss-degraded/capped) or another link is excluded; gate-combination histogram in classes",
-        ctx.tier.pick(40_000, 1_500_000),
+        ctx.tier.pick(150_000, 2_000_000),
         || strategy(mo, None),
         |_| check,
     );
